@@ -18,7 +18,7 @@ def _pred(m, name, arity):
     return m.rec_ctor("Predicate")(name, arity)
 
 
-@unit("C07.new_predicate", "C07", "ngo.utils.globals:UniqueNames.new_predicate")
+@unit("C07.new_predicate", "C07", "ngo.utils.globals:UniqueNames.new_predicate", fallback="new_predicate")
 def new_predicate(ctx):
     """new_predicate(similar, arity): the result was not a known predicate, has the requested arity, is recorded as
     known afterwards (so later requests differ from it) and nothing else changes in the known set"""
@@ -63,7 +63,7 @@ def new_predicate(ctx):
     ctx.assume_note("termination of the candidate-name loops is not proved")
 
 
-@unit("C07.new_auxpredicate", "C07", "ngo.utils.globals:UniqueNames.new_auxpredicate")
+@unit("C07.new_auxpredicate", "C07", "ngo.utils.globals:UniqueNames.new_auxpredicate", fallback="new_auxpredicate")
 def new_auxpredicate(ctx):
     """new_auxpredicate(arity): result not previously known, requested arity, recorded, counter only grows"""
     ex, m = ctx.ex, ctx.m
@@ -98,7 +98,7 @@ def new_auxpredicate(ctx):
     ctx.adopt_engine_obligations()
 
 
-@unit("C07.make_unique", "C07", "ngo.utils.globals:UniqueVariables.make_unique")
+@unit("C07.make_unique", "C07", "ngo.utils.globals:UniqueVariables.make_unique", fallback="make_unique")
 def make_unique(ctx):
     """make_unique(var): `_` is returned as is; otherwise the result is a Variable that did not occur in the statement
     (nor was handed out before) and is recorded, so two invented variables never coincide"""
